@@ -329,6 +329,17 @@ pub fn b_state(op: u8) {
             }
         }));
         assert!(inv_u8(&t), "ORACLE: shape invariant broken after a leaked drain / rejected remove");
+        // the same with zero-sized elements (`size_of::<T>() == 0` paths)
+        let mut z: TooDee<()> = if cols == 0 { TooDee::default() } else { TooDee::from_vec(cols, rows, vec![(); cols * rows]) };
+        let _ = std::panic::catch_unwind(std::panic::AssertUnwindSafe(|| {
+            if op == 2 {
+                core::mem::forget(z.remove_row(idx));
+            } else {
+                core::mem::forget(z.remove_col(idx));
+            }
+        }));
+        let (c, r) = (z.num_cols(), z.num_rows());
+        assert!(c.checked_mul(r) == Some(z.data().len()) && (c == 0) == (r == 0), "ORACLE: shape invariant broken after a leaked drain / rejected remove (zero-sized elements)");
         end_reached!();
         return;
     }
